@@ -743,7 +743,11 @@ class PyExec:
         s1.path.append(c)
         s2.path.append(z3.Not(c))
         a, b = self.ev(s1, n.body), self.ev(s2, n.orelse)
-        return merge_val(c, a, b)
+        try:
+            return merge_val(c, a, b)
+        except MergeFail:
+            # values of different shapes (e.g. two string constants of different length): only their identities are kept
+            return PAny(z3.If(c, ival(a), ival(b)))
 
     def ev_JoinedStr(self, st, n):
         codes = []
